@@ -375,6 +375,21 @@ class JacobianAssembly:
                             break
 
             if variable not in self.sizes:
+                # The variable does not appear in any Jacobian,
+                # e.g. when the functions do not depend on its disciplines;
+                # get its size from the input data of a discipline.
+                for discipline in self.coupling_structure.disciplines:
+                    value = discipline.io.data.get(variable)
+                    if variable in discipline.io.input_grammar and value is not None:
+                        self.sizes[variable] = (
+                            discipline.io.input_grammar.data_converter.get_value_size(
+                                variable, value
+                            )
+                        )
+                        self.disciplines[variable] = discipline
+                        break
+
+            if variable not in self.sizes:
                 msg = f"Failed to determine the size of input variable {variable}"
                 raise ValueError(msg)
 
